@@ -50,13 +50,15 @@ def inline_helper(ctx, e):
     t2 = strip(tail)
     if isinstance(t2, dict) and t2.get('k') == 'call' and t2['f'].get('name') in ('Ok', 'Some') and len(t2['args']) == 1:
         t2 = t2['args'][0]
-    return (t2, Ctx(ctx.facts, H.binding_inits(h2)))
+    return (t2, Ctx(ctx.facts, H.binding_inits(h2), h2))
 
 
 def pmatch(ctx, pat, e):
     """pattern match with one level of local helper inlining"""
+    ctx.env = {}
     if pat.m(ctx, e):
         return True
+    ctx.env = {}
     ih = inline_helper(ctx, e)
     if ih is not None and pat.m(ih[1], ih[0]):
         return True
@@ -70,9 +72,28 @@ def pmatch(ctx, pat, e):
     return False
 
 
+def _assignments_any_base(hfn, chain):
+    out = []
+
+    def visit(n, anc):
+        if n.get('k') == 'assign':
+            fc = H.field_chain(n['l'])
+            if fc and fc[1] == list(chain):
+                out.append((n['r'], n.get('ln'), anc))
+    H.walk(hfn['body'], visit)
+    return out
+
+
 def _all_assign(fn_chain, pat, base='state'):
     def chk(ctx, hfn):
         rhs = assignments(hfn, base, fn_chain)
+        if not rhs and ctx.names is not None and base not in ctx.names:
+            # the base local was renamed: go by the field chain / by the value alone
+            cand = _assignments_any_base(hfn, fn_chain)
+            if fn_chain:
+                rhs = cand
+            else:
+                rhs = [c for c in cand if pmatch(ctx, pat, c[0])][:1]
         if not rhs:
             return False, 'no assignment to `%s.%s` found' % (base, '.'.join(fn_chain)), None
         for r, ln, anc in rhs:
@@ -97,6 +118,13 @@ def _struct_init(adt, field, pat):
 def _let(name, pat, every=True):
     def chk(ctx, hfn):
         inits = ctx.inits.get(name, [])
+        if not inits and ctx.names is not None and name not in ctx.names:
+            # the local was renamed: some binding of the function must have the required form
+            for nm, its in ctx.inits.items():
+                for i in its:
+                    if pmatch(ctx, pat, i):
+                        return True, '', i.get('ln')
+            return False, 'no binding of the form %r found (`%s` no longer exists)' % (pat, name), None
         if not inits:
             return False, 'no binding `%s` found' % name, None
         oks = [pmatch(ctx, pat, i) for i in inits]
@@ -355,7 +383,7 @@ def run(facts, out, props=None):
         if hfn is None:
             out.anchor(rule, 'function ' + r.fn, False, 'needed by row ' + r.label)
             continue
-        ctx = Ctx(facts, H.binding_inits(hfn))
+        ctx = Ctx(facts, H.binding_inits(hfn), hfn)
         ok, why, ln = r.check(ctx, hfn)
         b = facts.body(r.fn)
         file = b.file if b else 'src'
